@@ -216,9 +216,13 @@ func (e *Engine) verifyFunc(fc *FuncContract) (res *FuncResult) {
 	params := e.paramObjects(fc)
 	entry := map[types.Object]Value{}
 	for _, p := range params {
-		v := e.symbolic(st, "p_"+p.Name(), p.Type())
-		entry[p] = v
-		e.declare(st, p, v)
+		entry[p] = e.symbolic(st, "p_"+p.Name(), p.Type())
+	}
+	// parameters whose address is taken live in cells of their own, allocated by the function itself: they are fresh
+	// memory for the frame (a write to a by-value parameter is no effect on the caller)
+	paramBound, paramSeq := st.alloc, e.allocSeq
+	for _, p := range params {
+		e.declare(st, p, entry[p])
 	}
 	if fc.lit != nil {
 		// captured variables of a closure verified on its own: arbitrary well-typed values
@@ -252,7 +256,7 @@ func (e *Engine) verifyFunc(fc *FuncContract) (res *FuncResult) {
 	res.entryState = entryState
 	// the frame: fresh memory plus the modifies targets
 	{
-		f := &frame{entry: entryState, bound: st.alloc, startSeq: e.allocSeq, all: fc.modAll}
+		f := &frame{entry: entryState, bound: paramBound, startSeq: paramSeq, all: fc.modAll}
 		for _, m := range fc.modifies {
 			e.addFrameTarget(f, e.evalModTarget(st, m), m)
 		}
